@@ -16,7 +16,7 @@ import os
 from sa.excflow import C_RAISES, EXT_RAISES, Escape
 from sa.flow import FuncRef, Program
 from sa.linear import Lin
-from sa.pyfacts import Unknown, attr_chain, call_name, norm
+from sa.pyfacts import Unknown, attr_chain, call_name, get_kw, norm
 from sa.q import Fn, flatten_cond, raise_class, raise_kw
 from sa.report import VERIF, AnalysisError
 
@@ -301,6 +301,37 @@ def _r2b(repo, chk, prog):
                     if ".reset(" in txt or "end_stream=True" in txt or ".stop(" in txt:
                         bad.append(f"{m.name}:{q}: {txt[:60]}")
     chk.ob("R2b", "crypto streams are never reset, stopped or finished", not bad and n >= 3, f"{bad}", "")
+    # RangeSet.bounds() is only applied to the range set of a parsed ACK frame, which is never empty
+    callers = []
+    for m in repo.modules.values():
+        for q, fnode in m.functions.items():
+            for c in [x for x in ast.walk(fnode) if isinstance(x, ast.Call)]:
+                if isinstance(c.func, ast.Attribute) and c.func.attr == "bounds" and not c.args:
+                    callers.append((f"{m.name}:{q}", norm(c.func.value)))
+    chk.ob("R2b", "RangeSet.bounds() is called only on on_ack_received's ack_rangeset", callers == [("quic.recovery:QuicPacketRecovery.on_ack_received", "ack_rangeset")], f"{callers}", "")
+    srcs = []
+    for m in repo.modules.values():
+        for q, fnode in m.functions.items():
+            for c in [x for x in ast.walk(fnode) if isinstance(x, ast.Call)]:
+                if call_name(c).endswith("on_ack_received"):
+                    kw = get_kw(c, "ack_rangeset")
+                    f2 = Fn(repo, f"{m.name}:{q}")
+                    src = None
+                    if isinstance(kw, ast.Name):
+                        # tuple-unpacked result: `ack_rangeset, _ = pull_ack_frame(buf)` is the only definition
+                        defs = [st for st in f2.stmts(lambda s: isinstance(s, ast.Assign)) if any(isinstance(t, ast.Tuple) and t.elts and isinstance(t.elts[0], ast.Name) and t.elts[0].id == kw.id for t in st.targets)]
+                        others = [x for x in f2.assigns(chain=kw.id) if x[0] not in defs]
+                        if len(defs) == 1 and not others:
+                            src = norm(defs[0].value)
+                    srcs.append((q, src))
+    ok = bool(srcs) and all(v is not None and v.startswith("pull_ack_frame(") for q, v in srcs)
+    chk.ob("R2b", "on_ack_received receives the range set returned by pull_ack_frame", ok, f"{srcs}", "")
+    pa = Fn(repo, "quic.packet:pull_ack_frame")
+    top = [norm(st) for st in pa.node.body]
+    adds = [i for i, t in enumerate(top) if t.startswith("rangeset.add(")]
+    rets = [i for i, t in enumerate(top) if t.startswith("return rangeset") or t.startswith("return (rangeset")]
+    ok = bool(adds) and bool(rets) and adds[0] < rets[0] and len(pa.returns()) == 1
+    chk.ob("R2b", "pull_ack_frame adds the first range unconditionally before its only return", ok, "", pa.loc(pa.node))
 
 
 # ---- R3 -------------------------------------------------------------------------------------
